@@ -140,6 +140,16 @@ def units(rng, tier):
     pairs5 = [(a, b) for a in ms5 for b in ms5]
     for a, b in rng.sample(pairs5, 150 if tier == "quick" else 1500):
         us.append(U("all_combinations", {"keep": False, "b1": mkbins(sorted(a), False), "b2": mkbins(sorted(b), False)}, "allcomb/sums-k5-small-pool"))
+    # 5 bins with pairwise DISTINCT small sums on both sides: more than 100 of the 120 permutations give distinct pairings and the rest coincide
+    # with earlier ones by arithmetic accident - where a bounded or flushed duplicate filter yields a pairing twice
+    for _ in range(40 if tier == "quick" else 600):
+        hi = rng.choice([8, 12, 12, 20])
+        a = sorted(rng.sample(range(0, hi + 1), 5))
+        b = sorted(rng.sample(range(0, hi + 1), 5))
+        us.append(U("all_combinations", {"keep": False, "b1": mkbins(a, False), "b2": mkbins(b, False), "numpy": rng.random() < 0.5}, "allcomb/sums-k5-distinct-sums"))
+        if rng.random() < 0.4:
+            us.append(U("all_combinations", {"keep": True, "b1": mkbins([[x] if x else [] for x in a], True), "b2": mkbins([[x] if x else [] for x in b], True)},
+                        "allcomb/contents-k5-distinct-sums"))
     # ---- CKK pruning bound
     for _ in range(150 if tier == "quick" else 1500):
         k = rng.randint(1, 5)
